@@ -209,7 +209,7 @@ fn main() {
     if envs("MAYV_SCHED", "narrow") == "narrow" {
         cfg.sched_files = vec!["src/sync/semphore.rs", "src/sync/blocking.rs", "src/park.rs", "src/cancel.rs", "src/bin/s_sem.rs"];
     }
-    let stalls = std::env::var("MAYV_STALL").is_ok();
+    let stalls = std::env::var("MAYV_STALL").is_ok() || std::env::var("MAYV_STALL_AT").is_ok();
     let init = envn("MAYV_INIT", 0) as i64;
     let nact = envn("MAYV_ACTORS", 3) as usize;
     let nops = envn("MAYV_OPS", 3);
